@@ -37,6 +37,7 @@ func vpUpdateBetweenCalls(kinds []int) {
 	what := kinds[vpChoose("update", 0, len(kinds)-1)]
 	conn := &vpConn{in: in, remote: "10.0.0.5:" + []string{"700", "2000"}[vpChoose("port-class", 0, 1)]}
 	highPort := conn.remote == "10.0.0.5:2000"
+	viaExport := vpBool("via-UpdateExportOptions")
 	// the update happens when the server turns to the second call: the first one has been answered
 	conn.hookAt = cut[1]
 	conn.hook = func() {
@@ -61,7 +62,15 @@ func vpUpdateBetweenCalls(kinds []int) {
 			pol.EnableRateLimiting = true
 			pol.RateLimitConfig = &cfg
 		}
-		vpAssert(env.nfs.UpdatePolicyOptions(pol) == nil, "update-accepted")
+		if viaExport {
+			// the same change made the documented way: edit the GetExportOptions snapshot, hand it back
+			o := env.nfs.GetExportOptions()
+			o.ReadOnly, o.AllowedIPs, o.Secure = pol.ReadOnly, pol.AllowedIPs, pol.Secure
+			o.EnableRateLimiting, o.RateLimitConfig = pol.EnableRateLimiting, pol.RateLimitConfig
+			vpAssert(env.nfs.UpdateExportOptions(o) == nil, "update-accepted")
+		} else {
+			vpAssert(env.nfs.UpdatePolicyOptions(pol) == nil, "update-accepted")
+		}
 	}
 	env.fs.log = nil
 	env.srv.handleConnectionWithRecordMarking(conn, env.h)
